@@ -399,7 +399,7 @@ func (g *gen) genNum(d int) *Node {
 	case x < 48:
 		n = nUn("-", g.genNum(d-1))
 	case x < 54:
-		n = nCond(g.genBool(d-1), g.genNum(d-1), g.genNum(d-1))
+		n = nCond(g.condExpr(d-1), g.genNum(d-1), g.genNum(d-1))
 	case x < 64:
 		if n = g.pathOf(kindIs(KNum)); n == nil {
 			n = g.numLit()
@@ -519,6 +519,18 @@ func (g *gen) failing(d int) *Node {
 	}
 }
 
+// condExpr: a condition (conditional, for filter, %{if}): a bool, or sometimes a string
+// "true"/"false", which converts.
+func (g *gen) condExpr(d int) *Node {
+	if g.pct(8) {
+		if g.pct(40) {
+			return withTy(nVar("s3"), tStr)
+		}
+		return withTy(nStr([]string{"true", "false"}[g.pick(2)]), tStr)
+	}
+	return g.genBool(d)
+}
+
 func (g *gen) boolLeaf() *Node {
 	if len(g.scope) > 0 && g.pct(30) {
 		if n := g.scopeVar(kindIs(KBool)); n != nil {
@@ -558,7 +570,7 @@ func (g *gen) genBool(d int) *Node {
 	case x < 80:
 		n = nUn("!", g.genBool(d-1))
 	case x < 85:
-		n = nCond(g.genBool(d-1), g.genBool(d-1), g.genBool(d-1))
+		n = nCond(g.condExpr(d-1), g.genBool(d-1), g.genBool(d-1))
 	case x < 91:
 		if g.pct(50) {
 			n = nCall("can", g.failing(d-1))
@@ -706,7 +718,7 @@ func (g *gen) genStr(d int) *Node {
 			n.A = append(n.A, g.genPrim(d-1))
 		}
 	case x < 80:
-		n = nCond(g.genBool(d-1), g.genStr(d-1), g.genStr(d-1))
+		n = nCond(g.condExpr(d-1), g.genStr(d-1), g.genStr(d-1))
 	case x < 86:
 		n = g.tryOf(d, g.genStr)
 	case x < 94:
@@ -786,7 +798,7 @@ func (g *gen) genSeq(d int) *Node {
 		return g.splat(d)
 	case x < 97:
 		a, b := g.seqOfNum(d-1), g.seqOfNum(d-1)
-		return withTy(nCond(g.genBool(d-1), a, b), &Ty{K: KTuple, Len: -1, Elem: tNum})
+		return withTy(nCond(g.condExpr(d-1), a, b), &Ty{K: KTuple, Len: -1, Elem: tNum})
 	default:
 		s := g.genSeq(d - 1)
 		return withTy(g.tryOf(d, func(int) *Node { return s }), s.ty)
@@ -847,7 +859,7 @@ func (g *gen) objectCtor(d int) *Node {
 		switch y := g.pick(10); {
 		case y < 5:
 			it.Style, it.Name = KeyIdent, key
-			if g.pct(20) {
+			if g.pct(30) {
 				// a bare identifier is a literal key even when a variable of that name exists
 				nm := []string{"s0", "n1", "ls", "k1"}[g.pick(4)]
 				if len(g.scope) > 0 && g.pct(60) {
@@ -930,7 +942,7 @@ func (g *gen) forOver(d int, obj bool, want *Ty) *Node {
 	defer func() { g.scope = g.scope[:save] }()
 
 	if g.pct(40) {
-		n.CondE = g.genBool(d - 1)
+		n.CondE = g.condExpr(d - 1)
 	}
 	body := func() *Node {
 		if want != nil {
@@ -1158,7 +1170,7 @@ func (g *gen) tparts(d int, form TForm, nest int) []*TPart {
 		case x < 72:
 			ps = append(ps, &TPart{K: TInterp, E: g.genPrim(d - 1), Open: g.strips(false)})
 		case x < 86 && nest < 2:
-			p := &TPart{K: TIf, E: g.genBool(d - 1), Open: g.strips(false), Mid: g.strips(false), Close: g.strips(false)}
+			p := &TPart{K: TIf, E: g.condExpr(d - 1), Open: g.strips(false), Mid: g.strips(false), Close: g.strips(false)}
 			p.Then = g.tparts(d-1, form, nest+1)
 			if g.pct(55) {
 				p.HasElse = true
@@ -1215,7 +1227,7 @@ func (g *gen) flushLines(d int, nest int) []*TPart {
 			ps = append(ps, g.inlineItems(d)...)
 			ps = append(ps, &TPart{K: TLit, S: "\n"})
 		case x < 82:
-			p := &TPart{K: TIf, E: g.genBool(d - 1)}
+			p := &TPart{K: TIf, E: g.condExpr(d - 1)}
 			ps = append(ps, &TPart{K: TLit, S: ind}, p)
 			p.Then = append([]*TPart{{K: TLit, S: "\n"}}, g.flushLines(d-1, nest+1)...)
 			p.Then = append(p.Then, &TPart{K: TLit, S: strings.Repeat(" ", base+g.pick(5))})
